@@ -26,6 +26,7 @@ type Flow struct {
 	defers []*deferRec
 	dom   map[*cfg.Block]map[*cfg.Block]bool
 	backEdges map[Edge]bool
+	tags  map[ast.Expr]ast.Expr // case expression -> tag of its tagged switch
 }
 
 type Atom struct {
@@ -918,6 +919,11 @@ func (f *Flow) Cond(b *cfg.Block) ast.Expr {
 	e, ok := b.Nodes[len(b.Nodes)-1].(ast.Expr)
 	if !ok {
 		return nil
+	}
+	// tagged switch: go/cfg adds only the case expression ("one half of the
+	// tag==cond condition"); Succs[0] is the case body. Synthesise tag == expr.
+	if tag := f.caseTags()[e]; tag != nil {
+		return &ast.BinaryExpr{X: tag, Op: token.EQL, Y: e, OpPos: e.Pos()}
 	}
 	if t := f.Info.TypeOf(e); t != nil {
 		if bt, ok := t.Underlying().(*types.Basic); ok && bt.Info()&types.IsBoolean != 0 {
